@@ -29,7 +29,7 @@ def run(chk, tier):
     chk.floor("R-CHK.ref", chk.rule_counts.get("R-CHK.ref", 0), 8)
     chk.extra["functions_analysed"] = tot[0]
     chk.extra["functions_skipped_budget_or_visit"] = tot[2]
-    chk.assumptions += ["dimension / length encodings are unsigned (SBE requirement; the validator does not enforce it: finding D15)",
+    chk.assumptions += ["dimension / length encodings are unsigned (SBE requirement; the validator rejects non-integer types only and leaves signed ones to the schema author)",
                         "std::copy/copy_n/copy_backward/fill/fill_n/memcpy/memchr access exactly the ranges of their summaries",
                         "iterator-range arguments satisfy first <= last"]
     return chk.finish(
